@@ -29,7 +29,7 @@ impl Tier {
 }
 
 /// one group of violating cases that share a signature `<property>/<component>/<clause>`.
-#[derive(Clone, Debug)]
+#[derive(Clone, Debug, serde::Serialize, serde::Deserialize)]
 pub struct ViolGroup {
     pub count: u64,
     pub size: u64,
@@ -38,7 +38,7 @@ pub struct ViolGroup {
 }
 
 /// per-shard statistics; merged at the end of a run.
-#[derive(Default, Clone, Debug)]
+#[derive(Default, Clone, Debug, serde::Serialize, serde::Deserialize)]
 pub struct Stats {
     pub evaluations: u64,
     pub states: u64,
